@@ -24,11 +24,13 @@ type dstate struct {
 type dpath struct {
 	Conds []pathCond
 	Ret   *ast.ReturnStmt // nil when the path runs off the end of the body
+	Exit  string          // "" (return / fall off), "continue" or "break" when the body enumerated is a loop body
 	Env   map[types.Object]ast.Expr
 	Trace []ast.Stmt
 }
 
 type denum struct {
+	loopBody    bool // the statements enumerated are the body of a loop: continue / break end a path
 	opaqueLoops bool // loops that cannot be unrolled are stepped over instead of making the function undecided
 	info        *types.Info
 	pkg         *types.Package
@@ -36,11 +38,81 @@ type denum struct {
 	paths       []dpath
 	undecided   string
 	limit       int
+	inSwitch    int
+	decls       map[types.Object]*ast.FuncDecl // package-local functions that may be inlined when they are used as conditions
+	inlineDepth int
 }
 
 func (s dstate) with(e ast.Expr, v bool) dstate {
 	n := dstate{conds: append(append([]pathCond{}, s.conds...), pathCond{e, v}), env: s.env, trace: s.trace}
 	return n
+}
+
+// rec records an atom with the local variables it mentions replaced by what they are bound to at this point of the
+// path (loop variables of unrolled loops and parameters of inlined predicates change their binding later on).
+func (d *denum) rec(s dstate, e ast.Expr, v bool) dstate {
+	return s.with(d.subst(e, s.env, 0), v)
+}
+
+func (d *denum) subst(e ast.Expr, env map[types.Object]ast.Expr, depth int) ast.Expr {
+	if e == nil || depth > 8 || d.info == nil {
+		return e
+	}
+	switch x := e.(type) {
+	case *ast.Ident:
+		ob := d.info.ObjectOf(x)
+		if b, ok := env[ob]; ok && ob != nil && !refersTo(d.info, b, ob) && callFree(b) {
+			return d.subst(b, env, depth+1)
+		}
+		return x
+	case *ast.ParenExpr:
+		if in := d.subst(x.X, env, depth); in != x.X {
+			return &ast.ParenExpr{Lparen: x.Lparen, X: in, Rparen: x.Rparen}
+		}
+	case *ast.UnaryExpr:
+		if in := d.subst(x.X, env, depth); in != x.X {
+			return &ast.UnaryExpr{OpPos: x.OpPos, Op: x.Op, X: in}
+		}
+	case *ast.StarExpr:
+		if in := d.subst(x.X, env, depth); in != x.X {
+			return &ast.StarExpr{Star: x.Star, X: in}
+		}
+	case *ast.BinaryExpr:
+		a, b := d.subst(x.X, env, depth), d.subst(x.Y, env, depth)
+		if a != x.X || b != x.Y {
+			return &ast.BinaryExpr{X: a, OpPos: x.OpPos, Op: x.Op, Y: b}
+		}
+	case *ast.SelectorExpr:
+		// only a field selection on a substituted local is rewritten; package-qualified names and methods stay
+		if sel, ok := d.info.Selections[x]; ok && sel.Kind() == types.FieldVal {
+			if in := d.subst(x.X, env, depth); in != x.X {
+				return &ast.SelectorExpr{X: in, Sel: x.Sel}
+			}
+		}
+	case *ast.IndexExpr:
+		a, b := d.subst(x.X, env, depth), d.subst(x.Index, env, depth)
+		if a != x.X || b != x.Index {
+			return &ast.IndexExpr{X: a, Lbrack: x.Lbrack, Index: b, Rbrack: x.Rbrack}
+		}
+	case *ast.SliceExpr:
+		a, lo, hi := d.subst(x.X, env, depth), d.subst(x.Low, env, depth), d.subst(x.High, env, depth)
+		if a != x.X || lo != x.Low || hi != x.High {
+			return &ast.SliceExpr{X: a, Lbrack: x.Lbrack, Low: lo, High: hi, Max: x.Max, Slice3: x.Slice3, Rbrack: x.Rbrack}
+		}
+	case *ast.CallExpr:
+		changed := false
+		args := make([]ast.Expr, len(x.Args))
+		for i, a := range x.Args {
+			args[i] = d.subst(a, env, depth)
+			if args[i] != a {
+				changed = true
+			}
+		}
+		if changed {
+			return &ast.CallExpr{Fun: x.Fun, Lparen: x.Lparen, Args: args, Ellipsis: x.Ellipsis, Rparen: x.Rparen}
+		}
+	}
+	return e
 }
 
 func (s dstate) bind(ob types.Object, e ast.Expr) dstate {
@@ -90,11 +162,103 @@ func (d *denum) split(cond ast.Expr, in []dstate) (t, f []dstate) {
 			return xf, xt
 		}
 	}
+	// a boolean variable bound on this path to a compound condition (ok := a && b; if ok {…}): split through the binding
+	if id, ok := cond.(*ast.Ident); ok && d.info != nil {
+		ob := d.info.ObjectOf(id)
+		for _, s := range in {
+			b, bound := s.env[ob]
+			if bound && ob != nil && !refersTo(d.info, b, ob) {
+				switch ast.Unparen(b).(type) {
+				case *ast.BinaryExpr, *ast.UnaryExpr, *ast.Ident, *ast.SelectorExpr, *ast.CallExpr, *ast.StarExpr:
+					if lit, isID := ast.Unparen(b).(*ast.Ident); isID && (lit.Name == "true" || lit.Name == "false") {
+						if lit.Name == "true" {
+							t = append(t, s)
+						} else {
+							f = append(f, s)
+						}
+						continue
+					}
+					bt, bf := d.split(b, []dstate{s})
+					t = append(t, bt...)
+					f = append(f, bf...)
+					continue
+				}
+			}
+			t = append(t, d.rec(s, cond, true))
+			f = append(f, d.rec(s, cond, false))
+		}
+		return
+	}
+	// a call of a package-local predicate whose body can be enumerated: its paths are spliced in, with the parameters
+	// bound to the arguments (virtual inlining), so a test moved into a helper reads like the inline test
+	if call, ok := cond.(*ast.CallExpr); ok && d.decls != nil && d.inlineDepth < 3 {
+		if fn := calleeOf(d.info, call); fn != nil {
+			if fd := d.decls[fn]; fd != nil && fd.Body != nil && fd.Type.Results != nil && len(fd.Type.Results.List) == 1 {
+				if rt := d.info.TypeOf(fd.Type.Results.List[0].Type); rt != nil && rt.String() == "bool" {
+					var prms []*ast.Ident
+					for _, p := range fd.Type.Params.List {
+						prms = append(prms, p.Names...)
+					}
+					if len(prms) == len(call.Args) && !call.Ellipsis.IsValid() {
+						okAll := true
+						var tt, ff []dstate
+						for _, s := range in {
+							sub := &denum{info: d.info, pkg: d.pkg, inits: d.inits, decls: d.decls, limit: d.limit, inlineDepth: d.inlineDepth + 1, opaqueLoops: d.opaqueLoops}
+							st := dstate{conds: s.conds, env: s.env, trace: s.trace}
+							for i, p := range prms {
+								if p.Name != "_" {
+									st = st.bind(d.info.Defs[p], d.subst(call.Args[i], s.env, 0))
+								}
+							}
+							sub.finish(sub.run(fd.Body.List, []dstate{st}))
+							if sub.undecided != "" {
+								okAll = false
+								break
+							}
+							for _, pth := range sub.paths {
+								if pth.Ret == nil || len(pth.Ret.Results) != 1 {
+									okAll = false
+									break
+								}
+								id, isID := ast.Unparen(pth.Ret.Results[0]).(*ast.Ident)
+								ns := dstate{conds: pth.Conds, env: pth.Env, trace: s.trace}
+								switch {
+								case isID && id.Name == "true":
+									tt = append(tt, ns)
+								case isID && id.Name == "false":
+									ff = append(ff, ns)
+								default:
+									// returns a boolean variable or call: split on it in the callee's environment
+									rt2, rf2 := sub.split(pth.Ret.Results[0], []dstate{ns})
+									tt = append(tt, rt2...)
+									ff = append(ff, rf2...)
+								}
+							}
+						}
+						if okAll {
+							return tt, ff
+						}
+					}
+				}
+			}
+		}
+	}
 	for _, s := range in {
-		t = append(t, s.with(cond, true))
-		f = append(f, s.with(cond, false))
+		t = append(t, d.rec(s, cond, true))
+		f = append(f, d.rec(s, cond, false))
 	}
 	return
+}
+
+func refersTo(info *types.Info, e ast.Expr, ob types.Object) bool {
+	found := false
+	ast.Inspect(e, func(n ast.Node) bool {
+		if id, ok := n.(*ast.Ident); ok && info.ObjectOf(id) == ob {
+			found = true
+		}
+		return !found
+	})
+	return found
 }
 
 func (d *denum) assign(lhs, rhs ast.Expr, in []dstate) []dstate {
@@ -150,6 +314,10 @@ func (d *denum) run(stmts []ast.Stmt, in []dstate) []dstate {
 				}
 			} else if len(s.Rhs) == 1 {
 				cur = d.assign(s.Lhs[0], s.Rhs[0], cur)
+				// the further results of a call: <call>[k] (synthetic), so that a rule can recognise e.g. the `found` of strings.Cut
+				for k := 1; k < len(s.Lhs); k++ {
+					cur = d.assign(s.Lhs[k], &ast.IndexExpr{X: s.Rhs[0], Index: &ast.BasicLit{Kind: token.INT, Value: string(rune('0' + k))}}, cur)
+				}
 			}
 		case *ast.DeclStmt:
 			cur = traced(cur, s)
@@ -159,6 +327,13 @@ func (d *denum) run(stmts []ast.Stmt, in []dstate) []dstate {
 						for i, nm := range vs.Names {
 							if i < len(vs.Values) {
 								cur = d.assign(nm, vs.Values[i], cur)
+							} else if len(vs.Values) == 0 {
+								// zero value of a boolean variable
+								if t := d.info.TypeOf(nm); t != nil {
+									if b, ok := t.Underlying().(*types.Basic); ok && b.Kind() == types.Bool {
+										cur = d.assign(nm, ast.NewIdent("false"), cur)
+									}
+								}
 							}
 						}
 					}
@@ -207,14 +382,53 @@ func (d *denum) run(stmts []ast.Stmt, in []dstate) []dstate {
 					matched = append(matched, t...)
 					rest = f
 				}
+				d.inSwitch++
 				after = append(after, d.run(cc.Body, matched)...)
+				d.inSwitch--
 			}
 			if def != nil {
+				d.inSwitch++
 				after = append(after, d.run(def.Body, rest)...)
+				d.inSwitch--
 			} else {
 				after = append(after, rest...)
 			}
 			cur = after
+		case *ast.TypeSwitchStmt:
+			if s.Init != nil {
+				cur = d.run([]ast.Stmt{s.Init}, cur)
+			}
+			// each clause is a branch guarded by the synthetic atom `<clause>` (the clause node's first type expression)
+			var after []dstate
+			hasDefault := false
+			for _, cl := range s.Body.List {
+				cc := cl.(*ast.CaseClause)
+				var in2 []dstate
+				if cc.List == nil {
+					hasDefault = true
+					in2 = cur
+				} else {
+					for _, x := range cur {
+						in2 = append(in2, x.with(&ast.TypeAssertExpr{X: ast.NewIdent("·type"), Type: cc.List[0], Lparen: cc.Pos()}, true))
+					}
+				}
+				d.inSwitch++
+				after = append(after, d.run(cc.Body, in2)...)
+				d.inSwitch--
+			}
+			if !hasDefault {
+				after = append(after, cur...)
+			}
+			cur = after
+		case *ast.BranchStmt:
+			if d.loopBody && s.Label == nil && (s.Tok == token.CONTINUE || s.Tok == token.BREAK && d.inSwitch == 0) {
+				for _, x := range cur {
+					d.paths = append(d.paths, dpath{Conds: x.conds, Env: x.env, Trace: x.trace, Exit: s.Tok.String()})
+				}
+				return nil
+			}
+			d.undecided = "a statement the path enumerator does not interpret (" + nodeKind(st) + ")"
+			return nil
 		case *ast.RangeStmt:
 			elems := d.constElems(s.X, cur)
 			if elems == nil {
@@ -314,4 +528,16 @@ func (d *denum) constElems(x ast.Expr, in []dstate) []ast.Expr {
 		out = append(out, el)
 	}
 	return out
+}
+
+// callFree: the expression contains no call (its value does not stand for one particular evaluation).
+func callFree(e ast.Expr) bool {
+	free := true
+	ast.Inspect(e, func(n ast.Node) bool {
+		if _, ok := n.(*ast.CallExpr); ok {
+			free = false
+		}
+		return free
+	})
+	return free
 }
